@@ -1321,6 +1321,23 @@ class Unsupported(Exception):
     pass
 
 
+def _known_iflet(ct):
+    if ct[0] != "iflet" or ct[1][0] != "ptstruct" and ct[1][0] != "ppath":
+        return None
+    want = ct[1][1].split("::")[-1]
+    if want not in ("Some", "None", "Ok", "Err"):
+        return None
+    v = ct[2]
+    got = None
+    if v[0] == "call" and len(v) == 3 and v[1].split("::")[-1] in ("Some", "Ok", "Err") and v[1].startswith(("std::prelude", "core::option", "core::result", "std::option", "std::result")):
+        got = v[1].split("::")[-1]
+    elif v[0] == "ctor" and v[1].split("::")[-1] == "None":
+        got = "None"
+    if got is None:
+        return None
+    return got == want
+
+
 def subst(t, env):
     """Replace tracked variables (keys of env are terms) inside t by their current values."""
     if not isinstance(t, tuple):
@@ -1332,6 +1349,9 @@ def subst(t, env):
     r = tuple(subst(x, env) if isinstance(x, tuple) else x for x in t)
     if r[0] == "proj" and isinstance(r[2], tuple) and r[2] and r[2][0] == "tup" and isinstance(r[1], int) and r[1] < len(r[2]) - 1:
         return r[2][1 + r[1]]          # a component of a tuple value that is known by now
+    if r[0] == "variant" and len(r) == 4 and r[2] == 0 and isinstance(r[3], tuple) and r[3] and r[3][0] == "call" \
+            and len(r[3]) == 3 and r[3][1].split("::")[-1] == r[1] and r[1] in ("Some", "Ok", "Err"):
+        return r[3][2]                 # the payload of a constructor application that is known by now
     return r
 
 
@@ -1459,6 +1479,13 @@ def sym_paths(fv, root, limit=60000):
         for e in ev:
             if e[0] == "cond":
                 ct = cur(fv.term(e[1]))
+                # `if let Some(v) = X` where X is, on this path, a known Some(..) / None: decided, not a test
+                kn = _known_iflet(ct)
+                if kn is not None:
+                    if kn != e[2]:
+                        feasible = False
+                        break
+                    continue
                 # the same pure term tested twice with opposite outcomes: infeasible path
                 if seen_c.get(ct, e[2]) != e[2]:
                     feasible = False
